@@ -22,6 +22,7 @@ type c04case struct {
 	msg      string
 	lvl      slog.Level
 	caller   bool
+	noFrame  bool // the record has no frame behind it (pc 0)
 	kvs      []gen.KV
 	attrVals int
 	dups     int
@@ -182,12 +183,50 @@ func c04main(c *Ctx) {
 		// a third of the records carry an instant of their own (WriteThru): the time member then decodes to that instant
 		tsKnown := desc0 == "-" && !cs.caller && r.P(30)
 		ts := r.Time()
+		// a record may reach the logger without a frame behind it (WriteThru with pc 0, the hand-over entry point of a
+		// front end that has no source position; or a skip count beyond the depth of the stack): the caller member, if the
+		// flag asks for one, is then empty or absent - the record is one line of valid JSON all the same
+		noFrame := 0
+		if cs.caller && !cs.bundle && r.P(25) {
+			noFrame = 1 + r.Intn(2)
+			cs.noFrame = true
+			c.R.Add("records_without_a_frame_with_the_caller_flag_on", 1)
+		}
+		// the printf-style entry points (Infof, Warnf, Errorf): the message is what fmt makes of format and operands - with
+		// or without operands, "%%" is one percent sign
+		printfForm, printfFormat, printfOps := 0, "", []any(nil)
+		if noFrame == 0 && !tsKnown && r.P(7) {
+			printfForm = 1 + r.Intn(3)
+			cs.lvl = []slog.Level{slog.InfoLevel, slog.WarnLevel, slog.ErrorLevel}[printfForm-1]
+			cs.kvs, cs.attrVals, cs.dups, cs.bundle = nil, 0, 0, false
+			printfFormat = strings.ReplaceAll(cs.msg, "%", "%%")
+			switch r.Intn(4) {
+			case 0: // no operands, no verb but the escaped percent sign
+				printfFormat += " 100%% of it"
+				cs.msg += " 100% of it"
+			case 1:
+				printfFormat = "%%" + printfFormat + "%%"
+				cs.msg = "%" + cs.msg + "%"
+			case 2: // an operand
+				printfFormat += " %d%% of %s"
+				printfOps = []any{idx, "it"}
+				cs.msg += fmt.Sprintf(" %d", idx) + "% of it"
+			case 3: // nothing to format at all
+			}
+			c.R.Add("records_through_the_printf_style_entry_points", 1)
+			if len(printfOps) == 0 {
+				c.R.Add("records_through_the_printf_style_entry_points_without_operands", 1)
+			}
+		}
 		// one record in sixteen goes through the log/slog front end: a handler derived step by step (WithAttrs), from
 		// whose last step two siblings are derived; the record goes through the OLDER sibling after the younger exists
 		viaHandler := r.P(6)
 		var older stdslog.Handler
 		var rec stdslog.Record
 		zeroAttr := false
+		if printfForm != 0 || noFrame != 0 {
+			viaHandler = false
+		}
 		if viaHandler {
 			tsKnown = false
 			cs.caller, cs.lvl, cs.attrVals, cs.dups = false, slog.InfoLevel, 0, 0
@@ -225,7 +264,7 @@ func c04main(c *Ctx) {
 		// some of the attributes may be bound to the logger instead of given to the call - as Attr objects that ANOTHER
 		// logger holds too and re-binds (Set) under the same keys afterwards: this logger's record shows what IT was given
 		callKVs := cs.kvs
-		if !viaHandler && !tsKnown && cs.dups == 0 && len(cs.kvs) >= 2 && r.P(10) {
+		if !viaHandler && !tsKnown && noFrame == 0 && cs.dups == 0 && len(cs.kvs) >= 2 && r.P(10) {
 			k := r.Range(1, len(cs.kvs)-1)
 			ok := true
 			for _, kv := range cs.kvs[:k] {
@@ -252,6 +291,27 @@ func c04main(c *Ctx) {
 				lg.WriteThru(bg, cs.lvl, ts, thePC, cs.msg, attrsOf(cs.kvs))
 				return
 			}
+			switch noFrame {
+			case 1:
+				lg.WriteThru(bg, cs.lvl, ts, 0, cs.msg, attrsOf(cs.kvs))
+				return
+			case 2:
+				lg.SetSkip(1000)
+				lg.LogAttrs(bg, cs.lvl, cs.msg, mixedArgs(cs.kvs)...)
+				lg.SetSkip(0)
+				return
+			}
+			switch printfForm {
+			case 1:
+				_ = lg.Infof(printfFormat, printfOps...)
+				return
+			case 2:
+				_ = lg.Warnf(printfFormat, printfOps...)
+				return
+			case 3:
+				_ = lg.Errorf(printfFormat, printfOps...)
+				return
+			}
 			if cs.bundle && len(callKVs) > 0 && callKVs[len(callKVs)-1].Key == "bundle~" {
 				args := append(pairsFirst(callKVs[:len(callKVs)-1]), slog.NewAttrs("bundle~", 7))
 				lg.LogAttrs(bg, cs.lvl, cs.msg, args...)
@@ -264,6 +324,12 @@ func c04main(c *Ctx) {
 			desc["record_instant"] = ts.Format(time.RFC3339Nano)
 		}
 		desc["logger_timestamp_options"], desc["through_log_slog_handler"], desc["keys_given_twice"] = desc0, viaHandler, cs.dups
+		if printfForm != 0 {
+			desc["entry_point"], desc["format"], desc["operands"] = []string{"Infof", "Warnf", "Errorf"}[printfForm-1], printfFormat, fmt.Sprint(printfOps)
+		}
+		if noFrame != 0 {
+			desc["no_frame_behind_the_record"] = []string{"WriteThru with pc 0", "skip count 1000"}[noFrame-1]
+		}
 		if cs.dups > 0 {
 			c.R.Add("records_of_13_or_more_attributes_with_a_key_given_twice", 1)
 		}
@@ -422,7 +488,9 @@ func c04check(payload []byte, cs c04case) (out []cv) {
 		out = append(out, cv{"envelope-msg", fmt.Sprintf("msg member %s != message %q", clip(m.Brief(), 300), clip(cs.msg, 300))})
 	}
 	cal := n.Get("caller")
-	if cs.caller {
+	if cs.caller && cs.noFrame && cal == nil {
+		// nothing to report about a record without a frame: an absent member is as good as an empty one
+	} else if cs.caller {
 		// file and function are required; the line number may legitimately depend on the line-number flag
 		if cal == nil || cal.Kind != oracle.JObj || cal.Get("file") == nil || cal.Get("file").Kind != oracle.JStr ||
 			(cal.Get("line") != nil && cal.Get("line").Kind != oracle.JNum) || cal.Get("function") == nil || cal.Get("function").Kind != oracle.JStr {
